@@ -99,6 +99,12 @@ def run(ctx, rep, findings):
     pending = []
     for c in [f["input"] for f in findings if f.get("input")] + ctx.corpus():
         run_case(rep, c["ast"], sum(c["parts"]), [c["parts"]], pending)
+    # what a continuation must restore: just_once rows with every kind of scalar, visible and hidden
+    for i in range(ctx.scale(60, 600)):
+        rc = recipes.persist_case(ctx.rng)
+        k = ctx.rng.randint(2, 3)
+        run_case(rep, rc, k, [c for c in recipes.all_compositions(k) if len(c) > 1], pending)
+        rep.count("family:persisted-values")
     n = ctx.scale(220, 2500)
     kmax = 5 if ctx.tier == "thorough" else 4
     for i in range(n):
